@@ -112,16 +112,17 @@ def fn_into_verus(ctx, fw, qual, mode="V", ret=None, requires=(), ensures=(), de
         fw.insert(fn["output_span"][1], ")", rule="W10")
     pos = fn["block_span"][0]
     utags = set(tags)
+    ftags = utags - {"C12"}   # functional clauses do not speak about C12 unless tagged explicitly
     if requires:
         fw.insert(pos, "\n    requires\n", rule="W10")
         for r in requires:
             ed = fw.insert(pos, "        %s,\n" % r.strip().rstrip(","), rule="W10")
-            ctx.clause(unit, "req", r, utags, ed)
+            ctx.clause(unit, "req", r, ftags, ed)
     if ensures:
         fw.insert(pos, "\n    ensures\n", rule="W10")
         for c in ensures:
             if isinstance(c, str):
-                c = (c, utags)
+                c = (c, ftags)
             text, ctags = c
             ed = fw.insert(pos, "        %s,\n" % text.strip().rstrip(","), rule="W10")
             ctx.clause(unit, "ens", text, set(ctags), ed)
@@ -130,7 +131,7 @@ def fn_into_verus(ctx, fw, qual, mode="V", ret=None, requires=(), ensures=(), de
         fw.insert(pos, "\n    returns %s,\n" % returns, rule="W10")
     if decreases:
         ed = fw.insert(pos, "\n    decreases %s,\n" % decreases, rule="W10")
-        ctx.clause(unit, "dec", decreases, utags, ed)
+        ctx.clause(unit, "dec", decreases, {"C12"}, ed)
     if no_unwind:
         fw.insert(pos, "\n    no_unwind\n", rule="W10")
     ctx.units[unit] = {"unit": unit, "file": fw.rel, "fn": qual, "mode": mode, "tags": sorted(utags),
